@@ -97,7 +97,7 @@ pub fn generic_shrinks(case: &Case) -> Vec<Case> {
     for key in ["threads", "workers"] {
         if let Some(v) = case.params.get(key).and_then(|v| v.as_u64()) {
             for cand in [1u64, 2, v / 2] {
-                if cand < v && (key != "workers" || cand != 1) {
+                if cand >= 1 && cand < v && (key != "workers" || cand != 1) {
                     let mut c = case.clone();
                     c.params.insert(key.to_string(), serde_json::json!(cand));
                     out.push(c);
